@@ -16,7 +16,7 @@ import (
 
 func init() {
 	register(
-		&Rule{ID: "R15.1", Props: []string{"C15", "C11"}, Floor: 100, Title: "every field of every component's JSON configuration struct is both saved (to-JSON side) and loaded (from-JSON side)", Run: r151},
+		&Rule{ID: "R15.1", Props: []string{"C15", "C11", "C04"}, Floor: 100, Title: "every field of every component's JSON configuration struct is both saved (to-JSON side) and loaded (from-JSON side)", Run: r151},
 		&Rule{ID: "R15.2", Props: []string{"C15"}, Floor: 28, Title: "every loader (LoadJSON, ApplyEnvVars) returns through Validate on every success path", Run: r152},
 		&Rule{ID: "R15.3", Props: []string{"C15"}, Floor: 10, Title: "the configuration manager's section dispatcher covers every section type", Run: r153},
 		&Rule{ID: "R15.4", Props: []string{"C15"}, Floor: 18, Title: "JSON fields derived from secrets are tagged hidden; every ToDisplayJSON goes through DisplayJSON; the manager's display form uses only ToDisplayJSON", Run: r154},
